@@ -634,6 +634,22 @@ def run(c: Check):
                     "the second submit), while a fresh equal configuration - same identifier - gets a path of its own",
                     dict(scenario="sub = Leaf(v=7); T(v=5, c=sub).submit(); T(v=6, c=sub).submit()", observed=sh))
     c.extra["probes"] = probes
+    # two jobs of one class that both leave a parameter to its configuration-valued default: each instance holds its
+    # own copy.  Kept apart from the known finding below (there the copy of ONE job lies under another hash of the
+    # same job): here an object shared between instances, or the second job's path equal to / inside the first job's
+    d2 = probes.get("default_two_jobs") or dict(error="probe missing")
+    if "error" in d2:
+        c.obligations.append(dict(name="probe:default-two-jobs", kind="tie", ok=False, detail=d2["error"]))
+    else:
+        n1 = len(d2["first_job"]["parts"])
+        in_first = (d2["second_path"]["root"] == d2["first_job"]["root"]
+                    and d2["second_path"]["parts"][:n1] == d2["first_job"]["parts"])
+        if d2["same_object"] or d2["second_path"] == d2["first_path"] or in_first:
+            c.violation("C17:default-configuration-shared-between-instances",
+                        "two tasks of one class that leave a parameter to its default, a configuration with a generated "
+                        "path: the two instances hold the same object, sealed by the first submit - the generated path "
+                        "seen by the second job is the first job's (two jobs, one path; not private to the job)",
+                        dict(scenario="vpk_c17.probe: TDefault2(y=1).submit(); TDefault2(y=2).submit()", observed=d2))
     pd = probes["config_default"]
     if "error" in pd:
         c.obligations.append(dict(name="probe:config-valued-default", kind="tie", ok=False, detail=pd["error"]))
